@@ -559,14 +559,13 @@ class VariantPaths(productmd.common.MetadataBase):
         self.identity = parser.option_lookup(lookup, None)
 
     def deserialize_0_3(self, parser):
+        # the variant's own section is named by its UID; only without one, a section named by the bare ID is its own
+        # (next to it, such a section belongs to another variant, e.g. [variant-HA] beside [addon-Server-HA])
+        candidates = ["variant-%s" % self._variant.uid, "addon-%s" % self._variant.uid,
+                      "variant-%s" % self._variant.id, "addon-%s" % self._variant.id]
+        sections = [i for i in candidates if parser.has_section(i)][:1]
         for field in self._fields:
-            lookup = [
-                ("variant-%s" % self._variant.uid, field),
-                ("variant-%s" % self._variant.id, field),
-                ("addon-%s" % self._variant.uid, field),
-                ("addon-%s" % self._variant.id, field),
-            ]
-            value = parser.option_lookup(lookup, None)
+            value = parser.option_lookup([(i, field) for i in sections], None)
             setattr(self, field, value)
 
         if self._metadata.tree.arch == "src":
